@@ -560,7 +560,8 @@ def r9_signed_arith(ctx, F):
     first = {}
     n_sites = n_proven = 0
     for f in F.fns.values():
-        if f.crate != "starlark":
+        # the interpreter library only: the `starlark` BINARY of starlark_bin (full configuration) has the same crate name
+        if f.crate != "starlark" or not f.span.startswith("starlark/src/"):
             continue
         sites = [x for x in checked_arith_sites(f) if x[2] in ("i8", "i16", "i32", "i64", "isize", "i128")]
         if not sites:
